@@ -77,11 +77,15 @@ def gen_point(rng, dim, conds):
     return x
 
 
-def build_real(layers, base):
+def build_real(layers, base, levels=None):
+    """levels (optional list) receives the function seen at every nesting level: levels[0] is the whole stack, levels[j] the stack from layer j down"""
     import mystic.penalty as mp
     f = base
+    chain = []
     for ptype, cspec, k, h in reversed(layers):
         f = getattr(mp, ptype)(make_cond(cspec), k=k, h=h)(f)
+        chain.append(f)
+    if levels is not None: levels.extend(chain[::-1])
     return f
 
 
@@ -106,8 +110,14 @@ def run_case(cls, idx, rng, obs):
         layers.append([ptype, gen_cond(rng, dim), k, h])
     basek = rng.choice([0.0, 1.0, -2.0])
     base = lambda x: basek * sum(x) + (0.0 if basek else 0.0)
-    real = build_real(layers, base)
+    levels = []
+    real = build_real(layers, base, levels)
     model = build_model(layers, base)
+    def pick_level():
+        # most operations go through the whole stack; some address an inner layer directly (as a user holding the inner penalty does),
+        # which leaves the layers with different iteration counts
+        return 0 if (depth == 1 or rng.random() < 0.75) else rng.randrange(1, depth)
+    desync = False
     conds = [l[1] for l in layers]
     nops = rng.randint(6, 24)
     ops = []
@@ -153,12 +163,13 @@ def run_case(cls, idx, rng, obs):
             obs.check(close(float(got), float(want)), 'value:error(x) is the root-sum-square violation magnitude',
                       layers=layers, x=x, observed=got, expected=want)
         elif r < 0.70:
-            ops.append(['iter'])
-            real.iter(); model.iter(); advanced = True
+            lv = pick_level()
+            ops.append(['iter', None, lv])
+            levels[lv].iter(); model.iter(level=lv); advanced = True
         elif r < 0.76:
-            i = rng.randint(0, 4)
-            ops.append(['iter', i])
-            real.iter(i); model.iter(i); advanced = True
+            i = rng.randint(0, 4); lv = pick_level()
+            ops.append(['iter', i, lv])
+            levels[lv].iter(i); model.iter(i, level=lv); advanced = True
         elif r < 0.88:
             x = gen_point(rng, dim, conds)
             for _ in range(20):     # a multiplier stored at a zero-division point is inf: later values are inf-inf / 0*inf noise
@@ -169,15 +180,20 @@ def run_case(cls, idx, rng, obs):
                     x = gen_point(rng, dim, conds)
             else:
                 continue
-            i = rng.choice([None, None, rng.randint(0, 4)])
-            ops.append(['store', x, i])
-            real.store(x, i); model.store(x, i)
+            i = rng.choice([None, None, rng.randint(0, 4)]); lv = pick_level()
+            ops.append(['store', x, i, lv])
+            levels[lv].store(x, i); model.store(x, i, level=lv)
         elif r < 0.94:
-            ops.append(['clear'])
-            real.clear(); model.clear(); advanced = False
+            lv = pick_level() if rng.random() < 0.3 else 0
+            ops.append(['clear', lv])
+            levels[lv].clear(); model.clear(level=lv); advanced = False
         else:
             ops.append(['iteration'])
-        # state observers after every op
+        # state observers after every op, on every nesting level
+        if len(set(L.n for L in model.layers)) > 1: desync = True
+        for lv in range(1, depth):
+            obs.check(levels[lv].iteration() == model.iteration(lv), 'state:iteration() follows iter()/iter(i)/clear()',
+                      layers=layers, ops=ops[-6:], observed=levels[lv].iteration(), expected=model.iteration(lv), level=lv)
         obs.check(real.iteration() == model.iteration(), 'state:iteration() follows iter()/iter(i)/clear()',
                   layers=layers, ops=ops[-6:], observed=real.iteration(), expected=model.iteration())
         got_s, want_s = real.stored(), model.stored()
@@ -187,7 +203,8 @@ def run_case(cls, idx, rng, obs):
         # nested layers are reachable through the closure chain only via behaviour: probe with a fixed point
     obs.desc = {'layers': layers, 'base_k': basek, 'ops': ops}
     obs.nontrivial = saw_violated and saw_satisfied and advanced_before_call
-    obs.notes = {'final_iteration': model.iteration(), 'final_stored': model.stored(), 'nops': len(ops)}
+    if desync: obs.event('stacks_with_different_layer_iterations')
+    obs.notes = {'final_iteration': model.iteration(), 'final_stored': model.stored(), 'nops': len(ops), 'layer_iterations': [L.n for L in model.layers]}
 
 
 def run_adapters(rng, obs):
